@@ -834,8 +834,9 @@ pub fn gen_for_entries(
             out.push(format!("{} slen {}", fam, d));
         }
         out.push(format!("{} dec {} []", fam, d));
-        for _ in 0..n_val {
-            let mut budget = 40;
+        for i in 0..n_val {
+            // mostly small values; every 16th one may hold long lists
+            let mut budget = if i % 16 == 15 { 400 } else { 40 };
             let v = gen_val(&e.desc, rng, &mut budget);
             if enc_ops {
                 out.push(format!("{} enc {} {}", fam, d, v.fmt()));
@@ -867,7 +868,7 @@ pub fn all_entries() -> Vec<(String, &'static TypeEntry)> {
 }
 
 pub fn gen(rng: &mut Rng, thorough: bool, out: &mut Vec<String>) {
-    let per_type = if thorough { (60, 6, 40) } else { (5, 3, 4) };
+    let per_type = if thorough { (500, 8, 150) } else { (5, 3, 4) };
     gen_for_entries("codec", &all_entries(), rng, per_type, true, out);
 }
 
